@@ -135,6 +135,9 @@ func runSentence(c GCase, o sentenceOpts) *sentenceResult {
 		h.NameOf = func(e *gram.Expr) string {
 			switch e.Op {
 			case gram.OpAny:
+				if e.ID%3 == 0 {
+					return fmt.Sprintf("any%d (a %%-encoded byte, 100%%s)", e.ID) // names are free text
+				}
 				return fmt.Sprintf("any%d", e.ID)
 			case gram.OpChoice:
 				return fmt.Sprintf("choice%d", e.ID)
